@@ -320,6 +320,33 @@ func judge(out *pipe.Outcome, ix *pipe.Index) pipe.Verdict {
 	for i := range evs {
 		e := &evs[i]
 		if e.Kind == rig.KCtlRet && e.Op == "GuardedUpdate" && (e.Arg == "Running") {
+			// only decidable while the processor itself is live (a pipeline that is finishing
+			// its stop has already torn it down although the status write is still to come)
+			live := 0
+			ctl := i
+			for q := i; q >= 0; q-- {
+				if evs[q].Kind == rig.KCtl && evs[q].Call == e.Call {
+					ctl = q
+					break
+				}
+			}
+			for q := 0; q < ctl; q++ {
+				if evs[q].Comp == target && evs[q].Kind == rig.KProcOpen && evs[q].Err == "" {
+					live++
+				}
+				if evs[q].Comp == target && evs[q].Kind == rig.KProcTeardown && evs[q].Sess > 1 {
+					live--
+				}
+			}
+			tornDuring := false
+			for q := ctl; q <= i; q++ {
+				if evs[q].Comp == target && evs[q].Kind == rig.KProcTeardown {
+					tornDuring = true
+				}
+			}
+			if live <= 0 || tornDuring {
+				continue
+			}
 			v.Stats["guarded_updates_judged"]++
 			if e.Err == "" {
 				add("guarded-update-accepted-while-running", "processor.Service.Update succeeded on a processor of a running pipeline (running flag lost across the swap)", i)
